@@ -234,6 +234,7 @@ pub fn main(args: &Args) {
             max_steps: 5_000,
             record_atoms: atoms,
             yield_after: args.flag("yield-after"),
+            site_filter: None,
         };
         let bodies = vec![producer_body(q.clone(), pushes), consumer_body(q.clone(), pops)];
         let res = sched::run(cfg, bodies, strat);
